@@ -368,7 +368,7 @@ def gen_history(rng, length, kinds):
                 n = len(P[k])
                 o = rng.choice(("append", "append", "remove", "set", "get", "extend", "resize", "copy", "fill", "sort", "del"))
                 x = val(rng) if kind == "dv" else rng.randint(0, 40)
-                idx = rng.choice((0, max(0, n - 1), n, n + 1, rng.randint(0, n + 2)))
+                idx = rng.choice((0, max(0, n - 1), n, n + 1, rng.randint(0, n + 2), 2 ** 32 + rng.randint(0, max(0, n - 1)), 3 * 2 ** 32))
                 if o == "append":
                     t = ["%s_append" % kind, k, x]
                 elif o == "remove":
@@ -621,6 +621,8 @@ MODELLED = {"new": "VNew", "init": "VInit", "del": "VDel", "resize": "VResize", 
 def coq_op(t):
     """-> Gallina term of the operation, or None when the operation is outside the Coq model"""
     op, a = t[0], t[1:]
+    if any(str(x).isdigit() and int(x) > 100000 for x in a):
+        return None          # indices beyond 2^32 are exercised on the implementation only (unary numerals in the model)
     n = lambda x: "%d%%N" % int(x)
     fl = lambda x: vf.coq_f(float(x))
     k, _, name = op.partition("_")
@@ -700,6 +702,8 @@ def run(ck, rng, tier):
              ["m_new", 2, 2, 0], ["dv_new", 3, 4], ["dv_set", 3, 3, 2.5], ["m_appcol", 2, 3], ["m_get", 0, 0, 0], ["m_resize", 1, 2, 2]]
     hs[2] = [["dv_new", 0, 0], ["dv_append", 0, 0.75], ["dv_append", 0, 0.5], ["dv_append", 0, 0.25], ["dv_append", 0, 0.0], ["dv_append", 0, -0.5],
              ["dv_append", 0, 0.625], ["dv_sort", 0], ["dv_get", 0, 0], ["dv_new", 1, 3], ["dv_set", 1, 0, 2.5], ["dv_set", 1, 1, 2.25], ["dv_set", 1, 2, 2.0], ["dv_sort", 1]]
+    hs[3] = [["dv_new", 0, 3], ["dv_set", 0, 1, 2.5], ["dv_new", 1, 0], ["dv_copy", 1, 0], ["dv_append", 0, 1.0], ["dv_append", 1, 2.0], ["dv_del", 0], ["dv_del", 1],
+             ["ui_new", 0, 5], ["ui_get", 0, 2 ** 32 + 2], ["ui_get", 0, 3 * 2 ** 32], ["ui_get", 0, 4]]
     hs[1] = [["s_init", 0], ["s_appdbl", 0, 1e57], ["s_appdbl", 0, -3.5e120], ["s_appdbl", 0, 1e300], ["s_appdbl", 0, 0.25], ["s_new", 1, 2], ["s_extend", 0, 1, 2]]
     with ThreadPoolExecutor(max_workers=14) as ex:
         results = list(ex.map(lambda o: run_history(exe, o), hs))
